@@ -188,6 +188,32 @@ Theorem C19_from_to_default_float (st it ii : bool) (m : fmodel) (ix : pindex) (
 Proof. exact (from_to_default_float st it ii m ix c). Qed.
 Print Assumptions C19_from_to_default_float.
 
+(* from_dataframe of ANY table with ANY class: when it returns, the new model has the table's index as span (a list, or the
+   pandas time index itself), exactly the class's NAMES (duplicate-free) as variables in that order, every variable of the
+   class dtype holding the cast of its column — or of the default value when the table has no such column —, fresh status /
+   iterations, and under strict=True every column of the table is a NAME.  Columns outside NAMES influence nothing. *)
+Theorem C19_from_dataframe_contract (c : mclass) (t : table) (m : fmodel) :
+  from_table c t = TOk m ->
+  fspan m = span_of_index (tindex t) /\ fnames m = cnames c /\ map fst (fvars m) = cnames c /\
+  NoDup (cnames c) /\
+  (forall k s, In (k, s) (fvars m) ->
+     sdt s = cdtype c /\
+     cast_all (cdtype c)
+       (match find_col k (tcols t) with Some col => col_values col | None => repeat (cdefault c) (length (ilabels (tindex t))) end)
+     = TOk (scells s)) /\
+  fstatus m = mkSeries NStr (repeat (CStr "-") (length (ilabels (tindex t)))) /\
+  fiters m = mkSeries NInt (repeat (CInt (-1)) (length (ilabels (tindex t)))) /\
+  (cstrict c = true -> forall col, In col (tcols t) -> In (pcname col) (cnames c)).
+Proof. exact (from_table_char c t m). Qed.
+Print Assumptions C19_from_dataframe_contract.
+
+(* ... and when it raises, the class is DuplicateNameError (NAMES), InitialisationError (strict), ValueError or TypeError (cast) *)
+Theorem C19_from_dataframe_errors (c : mclass) (t : table) (e : exn) :
+  from_table c t = TErr e ->
+  (match e with DuplicateNameError | InitialisationError | ValueError | TypeError => true | _ => false end) = true.
+Proof. exact (from_table_errors c t e). Qed.
+Print Assumptions C19_from_dataframe_errors.
+
 (* what the guards exclude really fails: a variable added at run time (not in NAMES) is exported and silently dropped *)
 Theorem C19_from_to_extra_variable_refuted :
   exists m c t m', (forall k, In k (cnames c) -> In k (fnames m)) /\ cstrict c = false /\
